@@ -121,6 +121,8 @@ impl Filter for SortFilter {
 
         let mut sorted: Vec<Value> = input.iter().map(|v| v.to_value()).collect();
         if let Some(property) = &args.property {
+            // `safe_property_getter` expects a parseable property
+            parse_variable(property).map_err(|_| invalid_input("Invalid property"))?;
             // Using unwrap is ok since all of the elements are objects
             sorted.sort_by(|a, b| {
                 nil_safe_compare(
